@@ -33,8 +33,27 @@ def _mk_plugin(name):
     return plugin
 
 
-PLUGINS = {n: _mk_plugin(n) for n in ('p1', 'p2', 'p3')}
-PLUGIN_NAME = {v: k for k, v in PLUGINS.items()}
+class Holder:
+    """p2 is a bound method: every attribute access yields a new object that is equal to, but not identical with, the
+    one that was registered (a registry must compare entries by equality)"""
+
+    def p2(self, tape, stack, cache):
+        CALLS.append('p2')
+        return True
+
+
+HOLDER = Holder()
+
+
+class PluginTable(dict):
+    def __getitem__(self, k):
+        if k == 'p2':
+            return HOLDER.p2
+        return dict.__getitem__(self, k)
+
+
+PLUGINS = PluginTable({n: _mk_plugin(n) for n in ('p1', 'p2', 'p3')})
+PLUGIN_NAME = {PLUGINS['p1']: 'p1', HOLDER.p2: 'p2', PLUGINS['p3']: 'p3'}
 
 
 class ObjA:            # can be invoked only
@@ -386,6 +405,27 @@ def probes(ctx, a, hist, where):
         if got != want:
             ctx.violation({**sig, 'clause': 'contract used by CHECK_TRANSFER iff active', 'registry': 'contracts'},
                           f'history {hist}: {cid!r} active as {a["contracts"].get(cid)}, CHECK_TRANSFER -> {got}')
+    # ... also for the later scripts of an authorization (the locking script is normally the last one)
+    for cid in (b'c1', b'c2'):
+        CALLS.clear()
+        try:
+            F.run_auth_scripts([op('TRUE') + op('POP0'), P(b'\x00') + P(cid) + op('INVOKE'), op('TRUE')])
+        except BaseException as e:
+            ctx.violation({**sig, 'clause': 'probe run failed'}, f'history {hist}: {e!r}')
+        ctx.ran()
+        want = ['A.abi'] if a['contracts'].get(cid) == 'A' else []
+        if CALLS != want:
+            ctx.violation({**sig, 'clause': 'contract used by a later script of run_auth_scripts iff active', 'registry': 'contracts'},
+                          f'history {hist}: {cid!r} active as {a["contracts"].get(cid)}, calls {CALLS}')
+    CALLS.clear()
+    try:
+        F.run_auth_scripts([op('TRUE') + op('POP0'), op('GET_MESSAGE') + b'\x00' + op('POP0'), op('GET_MESSAGE') + b'\x00'], {'sigfield1': b'abc'})
+    except BaseException as e:
+        ctx.violation({**sig, 'clause': 'probe run failed'}, f'history {hist}: {e!r}')
+    ctx.ran()
+    if sorted(CALLS) != sorted(list(a['plugins']['signature_extensions']) * 2):
+        ctx.violation({**sig, 'clause': 'active plugins run in every script of run_auth_scripts', 'registry': 'plugins'},
+                      f'history {hist}: active {sorted(a["plugins"]["signature_extensions"])}, called {CALLS}')
     # aliases compile iff active
     for al, target in ALIAS_TARGET.items():
         try:
